@@ -140,6 +140,12 @@ def run(v) -> None:
         elif cls == "outlier":
             a = [rng.randrange(0, 10) for _ in range(n)]
             a[rng.randrange(n)] = 100
+        elif cls == "firstlane":        # degenerate (constant / exactly linear) FIRST lane on either axis, ordinary lanes elsewhere
+            A = np.array([rng.randrange(0, 10) for _ in range(n)]).reshape(shape)
+            if A.ndim == 2:
+                A[0, :] = 4
+                A[:, 0] = np.arange(A.shape[0]) + 4 if rng.random() < 0.5 else 4
+            return A.tolist()
         else:
             a = [rng.randrange(0, 4) for _ in range(n)]
         return np.array(a).reshape(shape).tolist()
@@ -147,7 +153,7 @@ def run(v) -> None:
     shapes = [(9,), (16,), (8, 9), (9, 11), (12, 8)]     # lanes of 8..16 (None axis on 2-D: up to 99 values: only relations + small classes)
     for _ in range(35 if quick else 500):
         shape = rng.choice(shapes)
-        cls = rng.choice(["ties", "ties", "const", "zeromad", "outlier", "small"])
+        cls = rng.choice(["ties", "ties", "const", "zeromad", "outlier", "small", "firstlane"])
         X = data(cls, shape)
         axes = [None] if len(shape) == 1 else [None, 0, 1]
         layout = rng.choice(["C", "T", "S"]) if len(shape) == 2 else "C"
